@@ -2,20 +2,15 @@ package main
 
 import (
 	"fmt"
-	"os"
-	"runtime/pprof"
 	"testing"
-	"time"
 )
 
 func TestDbg(t *testing.T) {
-	b := &buffer{}
-	go func() {
-		time.Sleep(1500 * time.Millisecond)
-		pprof.Lookup("goroutine").WriteTo(os.Stdout, 2)
-	}()
-	runCloseFill(b, 1, 4, 3, 0, 0, 3*time.Second)
-	for _, r := range b.recs {
-		fmt.Println(r.tag, r.out)
+	for i := 0; i < 5; i++ {
+		b := &buffer{}
+		runConnClose(b, 1, 4, []int{0}, 0, 1, 0)
+		for _, r := range b.recs {
+			fmt.Println(r.tag, r.out)
+		}
 	}
 }
